@@ -62,6 +62,7 @@ type MDP struct {
 	nCall   int
 	Handed  []Report // usage reports handed out, in order
 	UpdRpt  bool     // UpdateURR answers with one report
+	NoRmRpt bool     // RemoveURR succeeds without a final report (as the no-op driver does, and gtp5g when it returns an empty report list)
 	Handler report.Handler
 	// FaultsHit counts injected faults that were actually reached
 	FaultsHit int
@@ -231,6 +232,11 @@ func (m *MDP) RemoveURR(s uint64, i *ie.IE) ([]report.USAReport, error) {
 	k := Key{s, 'U', urrID(i)}
 	if !m.Table[k] {
 		return nil, m.log("Remove", k, syscall.ENOENT)
+	}
+	if m.NoRmRpt {
+		delete(m.Table, k)
+		_ = m.log("Remove", k, nil)
+		return nil, nil
 	}
 	r := m.mkReport(k)
 	delete(m.Table, k)
